@@ -322,6 +322,10 @@ func c16Templates() []c16Template {
 // ref.a), or no marker at all (for the completion probe).
 func c16Render(t *c16Template, s *c16Sel, order []int, withMarkers bool) string {
 	var sb strings.Builder
+	if (len(s.labels)+len(order))%2 == 1 {
+		// every other world begins with something that is not a token of the body
+		sb.WriteString(" ")
+	}
 	sb.WriteString("decl \"a\" {\n}\n")
 	sb.WriteString(t.block)
 	for _, l := range s.labels {
